@@ -33,6 +33,29 @@ def check_grid(g, multi=False):
         got = HV.abs_grid(b)
         if not HV.same(got, want, TOL):
             return 'read back %r, grid is %r (text %r)' % (got, want, text[:300])
+        z = zone_change(g, b)
+        if z:
+            return z + ' (text %r)' % text[:200]
+    return None
+
+
+def zone_change(g, b):
+    """a date-time that carries a named (pytz) zone comes back in that zone - the instant and the offset alone do not make the value"""
+    import datetime
+
+    def zones(grid):
+        out = []
+        for src in [grid.metadata] + [grid.column[c] for c in grid.column.keys()] + list(grid):
+            for k in src.keys():
+                v = src[k]
+                if isinstance(v, datetime.datetime) and getattr(v.tzinfo, 'zone', None):
+                    out.append((k, v.isoformat(), v.tzinfo.zone.split('/')[-1]))
+        return out
+    a, c = zones(g), zones(b)
+    if len(a) == len(c):
+        for (k1, i1, z1), (k2, i2, z2) in zip(a, c):
+            if z1 != z2 and z1 not in ('UTC', 'GMT', 'Zulu', 'UCT', 'Universal', 'Greenwich', 'GMT0', 'GMT+0', 'GMT-0', 'Etc/UTC') :
+                return 'date-time %s in zone %s read back in zone %s' % (i1, z1, z2)
     return None
 
 
